@@ -3,7 +3,8 @@
 
 `Trace` keeps what the grammar speaks about: which flow a trace belongs to where the Go trace carries a flow id
 (`NewFlowTrace`, `FlowTrace` — first listed flow = the sending flow itself, the others = the new flows it announces —,
-`TerminationTrace`), the node of `VisitTrace` / `LeaveTrace` (these carry no flow id), `CeaseFlowTrace`, and `other`
+`TerminationTrace`, `CancellationFlowTrace`: like the termination trace it is sent immediately before the flow
+goroutine returns, so it too ends the flow), the node of `VisitTrace` / `LeaveTrace` (these carry no flow id), `CeaseFlowTrace`, and `other`
 for everything the grammar does not constrain (task, error, completion, gateway bookkeeping traces, which are sent
 by node goroutines, not by the flow).
 
@@ -15,9 +16,10 @@ Rules, checked left to right by `scan`:
   program order is broken (or its first trace was lost).
 * `leaveBeforeVisit n` — more `LeaveTrace n` than `VisitTrace n` in some prefix: some occurrence of the node was
   left before it was visited.
-* `traceAfterTermination f` — after `TerminationTrace f` another trace that carries `f` as its sender
-  (`NewFlowTrace f`, `FlowTrace` sent by `f`, a second `TerminationTrace f`).
-* `ceaseNotLast` — a flow trace (`newflow`, `visit`, `leave`, `flow`, `term`) after `CeaseFlowTrace`.
+* `traceAfterTermination f` — after `TerminationTrace f` (or `CancellationFlowTrace f`) another trace that carries
+  `f` as its sender (`NewFlowTrace f`, `FlowTrace` sent by `f`, a second `TerminationTrace f`, a
+  `CancellationFlowTrace f`).
+* `ceaseNotLast` — a flow trace (`newflow`, `visit`, `leave`, `flow`, `term`, `cancel`) after `CeaseFlowTrace`.
 -/
 namespace Bpmn.Spec
 
@@ -27,6 +29,7 @@ inductive Trace
   | leave (n : Nat)
   | flow (src : Nat) (fs : List Nat)
   | term (f : Nat)
+  | cancel (f : Nat)
   | cease
   | other
 deriving DecidableEq, Repr
@@ -48,7 +51,7 @@ deriving Repr, DecidableEq
 
 /-- a trace sent by a flow goroutine -/
 def Trace.isFlowTrace : Trace → Bool
-  | .newflow _ | .visit _ | .leave _ | .flow _ _ | .term _ => true
+  | .newflow _ | .visit _ | .leave _ | .flow _ _ | .term _ | .cancel _ => true
   | _ => false
 
 def scanStep (s : Scan) (t : Trace) : Except Viol Scan :=
@@ -70,6 +73,10 @@ def scanStep (s : Scan) (t : Trace) : Except Viol Scan :=
         | some g => .error (.newflowBeforeAnnouncement g)
         | none => .ok s
   | .term f =>
+    if f ∈ s.termd then .error (.traceAfterTermination f)
+    else if f ∉ s.started then .error (.flowBeforeNewflow f)
+    else .ok { s with termd := f :: s.termd }
+  | .cancel f =>
     if f ∈ s.termd then .error (.traceAfterTermination f)
     else if f ∉ s.started then .error (.flowBeforeNewflow f)
     else .ok { s with termd := f :: s.termd }
